@@ -125,8 +125,78 @@ fn violation(v: &Value) -> Option<String> {
     }
     None
 }
+// ---- module privacy (property C17): compile small module programs with the real compiler -----------------
+fn compile_errors(src: &str) -> Vec<String> {
+    use mimium_lang::{Config, ExecContext};
+    let mut ctx = ExecContext::new([].into_iter(), None, Config::default());
+    match ctx.prepare_machine(src) {
+        Ok(_) => vec![],
+        Err(errs) => errs.iter().map(|e| e.get_message()).collect(),
+    }
+}
+/// (program, must_be_rejected, description)
+fn privacy_programs() -> Vec<(String, bool, String)> {
+    let mut out = vec![];
+    // owner module paths and use-site modules; `inside` says whether the site is within the owner's hierarchy
+    let owners = [("osc", "mod osc { fn secret(x) { x * 2.0 } pub fn open(x) { secret(x) } SITE_IN }", "osc")];
+    let sites: Vec<(&str, bool)> = vec![
+        ("top", false),
+        ("mod lfo { pub fn run(x) { BODY } }", false),
+        ("mod osc2 { pub fn run(x) { BODY } }", false),
+        ("mod oscillator { pub fn run(x) { BODY } }", false),
+    ];
+    let routes: Vec<(&str, &str, &str)> = vec![
+        ("qualified path", "", "osc::secret(x)"),
+        ("use", "use osc::secret\n", "secret(x)"),
+        ("multi-import", "use osc::{secret, open}\n", "secret(x)"),
+        ("wildcard", "use osc::*\n", "secret(x)"),
+        ("re-export", "mod api { pub use osc::secret }\n", "api::secret(x)"),
+    ];
+    for (_oname, otext, _) in owners {
+        for (site, inside) in &sites {
+            for (rname, prelude, call) in &routes {
+                let owner = otext.replace("SITE_IN", "");
+                let (decls, dsp) = if *site == "top" {
+                    (String::new(), format!("fn dsp() {{ let x = 1.0\n {call} }}"))
+                } else {
+                    let modname = site.split_whitespace().nth(1).unwrap();
+                    (site.replace("BODY", call), format!("fn dsp() {{ {modname}::run(1.0) }}"))
+                };
+                // `use` statements live at top level (they affect every function of the file)
+                let src = format!("{owner}\n{prelude}{decls}\n{dsp}\n");
+                out.push((src, !*inside, format!("{rname} from {site}")));
+            }
+        }
+    }
+    // control: the owner itself and a child module may use the private member
+    out.push(("mod osc { fn secret(x) { x * 2.0 } pub fn open(x) { osc::secret(x) } mod detail { pub fn twice(x) { osc::secret(x) } } pub fn t(x) { osc::detail::twice(x) } }\nfn dsp() { osc::open(1.0) + osc::t(1.0) }\n".to_string(), false, "own hierarchy".into()));
+    out
+}
+
 fn main() {
     let args: Vec<String> = std::env::args().collect();
+    if args.get(1).map(|s| s.as_str()) == Some("privacy-search") || args.get(1).map(|s| s.as_str()) == Some("privacy-run") {
+        let progs = privacy_programs();
+        let only: Option<usize> = args.get(2).and_then(|s| s.parse().ok());
+        let mut found = false;
+        for (i, (src, must_reject, desc)) in progs.iter().enumerate() {
+            if let Some(o) = only { if o != i { continue; } }
+            let errs = compile_errors(src);
+            let rejected = !errs.is_empty();
+            let bad = *must_reject != rejected;
+            if args[1] == "privacy-run" {
+                println!("{} index={i} route={desc:?} must_reject={must_reject} rejected={rejected} errors={errs:?}", if bad { "FAILS" } else { "HOLDS" });
+                return;
+            }
+            if bad {
+                println!("FOUND index={i} value={desc:?} clause=C17[private member {} from outside its module] errors={errs:?}", if *must_reject { "accepted" } else { "rejected although inside" });
+                if std::env::var("VX_ALL").is_err() { return; }
+                found = true;
+            }
+        }
+        if !found { println!("NONE tried={}", progs.len()); }
+        return;
+    }
     let l0 = leaves();
     let l1 = wrap(&l0);
     let mut l2 = wrap(&l1.iter().step_by(7).cloned().collect::<Vec<_>>());
